@@ -25,6 +25,7 @@ import (
 func init() {
 	commands["c06"] = c06
 	commands["c13"] = c13
+	commands["c09r"] = c09r
 }
 
 // hCall is one handler call in replayable form.
@@ -491,10 +492,22 @@ func c06(e *env) {
 		opts := batched.Opts{BatchSize: uint32(1 + r.Intn(10)), BatchDelayMicros: uint32(50 + r.Intn(2000))}
 		batched.NewHandler(sock, opts)
 		pool := 1 + r.Intn(4)
+		if i%2 == 1 {
+			// bodies arrive after their headers, on several pooled connections at once: a reader is
+			// in the middle of a reply while the readers of the other connections start theirs
+			fb.BodyDelay = 300 * time.Microsecond
+			if pool < 2 {
+				pool = 2 + r.Intn(3)
+			}
+			w.Count("concurrent-round-with-delayed-bodies")
+		}
 		for p := 1; p < pool; p++ {
 			batched.VerifAddConn(sock)
 		}
 		ncallers := []int{1, 2, 4, 8, 16, 32, 64}[r.Intn(7)]
+		if fb.BodyDelay > 0 && ncallers < 8 {
+			ncallers = 8
+		}
 		if !thorough && ncallers > 16 {
 			ncallers = 16
 		}
@@ -706,6 +719,18 @@ func c13(e *env) {
 			{Kind: "get", Items: []stack.GItem{{Key: []byte("d-a"), Opaque: 1}}}}}},
 		{Pool: 1, CutAt: 1, CutKind: "close-mid", Callers: [][]hCall{{{Kind: "set", Key: "d-a", Data: big, Flags: 7},
 			{Kind: "get", Items: []stack.GItem{{Key: []byte("d-a"), Opaque: 0}, {Key: []byte("d-a"), Opaque: 0}}}}}},
+		// a gete whose connection breaks: the transparent retry must again be a gete (the remaining
+		// lifetime is part of the caller's result; L1 is re-populated with it)
+		{Pool: 1, CutAt: 1, CutKind: "close-before", Callers: [][]hCall{{{Kind: "set", Key: "d-e", Data: big, Flags: 3, TTL: 500},
+			{Kind: "gete", Items: []stack.GItem{{Key: []byte("d-e"), Opaque: 1}}}}}},
+		{Pool: 1, CutAt: 1, CutKind: "close-mid", Callers: [][]hCall{{{Kind: "set", Key: "d-e", Data: big, Flags: 3, TTL: 500},
+			{Kind: "gete", Items: []stack.GItem{{Key: []byte("d-e"), Opaque: 1}}}}}},
+		{Pool: 1, CutAt: 1, CutKind: "close-after-reply", Callers: [][]hCall{{{Kind: "set", Key: "d-e", Data: big, Flags: 3, TTL: 500},
+			{Kind: "gete", Items: []stack.GItem{{Key: []byte("d-e"), Opaque: 1}}}}}},
+		{Pool: 2, CutAt: 2, CutKind: "close-before", Callers: [][]hCall{{{Kind: "set", Key: "d-e", Data: big, Flags: 3, TTL: 500}, {Kind: "set", Key: "d-f", Data: []byte("f"), Flags: 4, TTL: 7000},
+			{Kind: "gete", Items: []stack.GItem{{Key: []byte("d-e"), Opaque: 1, Quiet: true}, {Key: []byte("d-f"), Opaque: 2}}}}}},
+		{Pool: 1, CutAt: 3, CutKind: "close-mid", Callers: [][]hCall{{{Kind: "set", Key: "d-e", Data: big, Flags: 3, TTL: 500}, {Kind: "set", Key: "d-f", Data: []byte("f"), Flags: 4, TTL: 7000},
+			{Kind: "gete", Items: []stack.GItem{{Key: []byte("d-e"), Opaque: 1}, {Key: []byte("d-f"), Opaque: 2}}}}}},
 		// one batch (long batch delay) holding a get that is fully answered and a set whose reply is lost
 		{Pool: 1, CutAt: 2, CutKind: "close-before", DelayMicros: 30000, Callers: [][]hCall{
 			{{Kind: "get", Items: []stack.GItem{{Key: []byte("d-missing"), Opaque: 1}}}},
@@ -747,7 +772,7 @@ func c13(e *env) {
 				k := ks[r.Intn(2)]
 				switch r.Intn(4) {
 				case 0:
-					calls = append(calls, hCall{Kind: "set", Key: k, Data: []byte(fmt.Sprintf("w-%d-%d", cl, j)), Flags: uint32(j)})
+					calls = append(calls, hCall{Kind: "set", Key: k, Data: []byte(fmt.Sprintf("w-%d-%d", cl, j)), Flags: uint32(j), TTL: []uint32{0, 300, 9000}[r.Intn(3)]})
 				case 1:
 					calls = append(calls, hCall{Kind: "touch", Key: k, TTL: 100})
 				case 2:
@@ -767,6 +792,9 @@ func c13(e *env) {
 						}
 						cc.Items = append(cc.Items, it)
 					}
+					if !same && r.Chance(40) {
+						cc.Kind = "gete"
+					}
 					calls = append(calls, cc)
 				}
 			}
@@ -775,6 +803,35 @@ func c13(e *env) {
 		runCutCase(e, w, c)
 	}
 	finishC13(w)
+}
+
+// c09r (C09): L2's remaining lifetime reaches the caller of a GetE — and through it the L1 copy a
+// get re-populates — also when the pooled backend connection breaks while the gete is in flight
+// and the pool retries on its own. Go-side oracle only (the cut runs of C13, restricted to gete).
+func c09r(e *env) {
+	w := rig.NewWriter(e.out, "C09", e.tier, e.seed)
+	if rp := replayArg(e); rp != "" {
+		var c cutCase
+		b, err := os.ReadFile(rp)
+		if err == nil && json.Unmarshal(b, &c) == nil && len(c.Callers) > 0 {
+			runCutCase(e, w, c)
+		}
+	} else {
+		val := bytes.Repeat([]byte("v"), 300)
+		for _, kind := range []string{"close-before", "close-after-apply", "close-mid", "close-after-reply"} {
+			for _, ttl := range []uint32{500, 2592000, 0} {
+				for pool := 1; pool <= 2; pool++ {
+					runCutCase(e, w, cutCase{Pool: pool, CutAt: 2, CutKind: kind, Callers: [][]hCall{{
+						{Kind: "set", Key: "r-a", Data: val, Flags: 3, TTL: ttl}, {Kind: "set", Key: "r-b", Data: []byte("b"), Flags: 4, TTL: 7000},
+						{Kind: "gete", Items: []stack.GItem{{Key: []byte("r-a"), Opaque: 1, Quiet: pool == 2}, {Key: []byte("r-b"), Opaque: 2}}}}}})
+				}
+			}
+		}
+	}
+	w.Res.Rule = "GetE through the batching pool with the pooled connection cut while the gete is in flight (before / after applying / inside / after the reply; TTL 500 s, 30 days, never; pools of 1 and 2): a gete that reports no error returns the stored data, flags and remaining lifetime (fixed backend clock)"
+	if err := w.Finish([]string{"base.Bytes", "base.Harness"}, "unit", "(fun _ => 0%N)"); err != nil {
+		rig.Die("%v", err)
+	}
 }
 
 func finishC13(w *rig.Writer) {
@@ -876,9 +933,91 @@ func runCutCase(e *env, w *rig.Writer, c cutCase) {
 		go func(ci int, calls []hCall) {
 			defer wg.Done()
 			h := batched.NewHandler(sock, opts)
+			// what this caller's own keys hold (callers use private keys and work sequentially): known
+			// after an acknowledged set, unknown again after any write whose outcome was an error
+			// (it may or may not have been applied). A read that reports no error must return exactly
+			// this for a key whose state is known: "its own correct result".
+			type kstate struct {
+				data  []byte
+				flags uint32
+				ttl   uint32
+			}
+			known := map[string]*kstate{}
 			for j, cl := range calls {
 				done := make(chan string, 1)
-				if cl.Kind == "gat" {
+				if cl.Kind == "gete" || (cl.Kind == "get" && len(cl.Items) > 0) {
+					go func() {
+						var hits []common.GetEResponse
+						var gerr error
+						n := 0
+						rq, _ := cl.common()
+						if cl.Kind == "gete" {
+							dc, ec := h.GetE(rq.(common.GetRequest))
+							for dc != nil || ec != nil {
+								select {
+								case g, ok := <-dc:
+									if !ok {
+										dc = nil
+									} else {
+										n++
+										hits = append(hits, g)
+									}
+								case e, ok := <-ec:
+									if !ok {
+										ec = nil
+									} else {
+										gerr = e
+									}
+								}
+							}
+						} else {
+							dc, ec := h.Get(rq.(common.GetRequest))
+							for dc != nil || ec != nil {
+								select {
+								case g, ok := <-dc:
+									if !ok {
+										dc = nil
+									} else {
+										n++
+										hits = append(hits, common.GetEResponse{Key: g.Key, Data: g.Data, Flags: g.Flags, Miss: g.Miss, Opaque: g.Opaque, Quiet: g.Quiet})
+									}
+								case e, ok := <-ec:
+									if !ok {
+										ec = nil
+									} else {
+										gerr = e
+									}
+								}
+							}
+						}
+						if gerr == nil {
+							var msg string
+							if n != len(cl.Items) {
+								msg = fmt.Sprintf("a %s of %d keys returned %d results and no error (partial answer presented as complete)", cl.Kind, len(cl.Items), n)
+							}
+							for _, g := range hits {
+								st := known[string(g.Key)]
+								if st == nil || msg != "" {
+									continue
+								}
+								switch {
+								case g.Miss:
+									msg = fmt.Sprintf("%s of key %q, which holds an acknowledged value, reported a miss and no error", cl.Kind, g.Key)
+								case !bytes.Equal(g.Data, st.data) || g.Flags != st.flags:
+									msg = fmt.Sprintf("%s of key %q returned data %q flags %d, the key holds %q flags %d", cl.Kind, g.Key, trunc(string(g.Data), 40), g.Flags, trunc(string(st.data), 40), st.flags)
+								case cl.Kind == "gete" && g.Exptime != st.ttl:
+									msg = fmt.Sprintf("gete of key %q reported a remaining lifetime of %d s, the key was stored with %d s (fixed clock)", g.Key, g.Exptime, st.ttl)
+								}
+							}
+							if msg != "" {
+								mu.Lock()
+								problems = append(problems, fmt.Sprintf("caller %d call %d: %s", ci, j, msg))
+								mu.Unlock()
+							}
+						}
+						done <- ""
+					}()
+				} else if cl.Kind == "gat" {
 					// a get-and-touch across a cut: an error, or the stored value (never an empty phantom hit)
 					go func() {
 						g, err := h.GAT(common.GATRequest{Key: []byte(cl.Key), Exptime: cl.TTL, Opaque: 5})
@@ -901,6 +1040,25 @@ func runCutCase(e *env, w *rig.Writer, c cutCase) {
 							problems = append(problems, fmt.Sprintf("caller %d call %d: %s", ci, j, msg))
 							mu.Unlock()
 						}
+					}
+					switch cl.Kind {
+					case "set":
+						if s == "HDone" {
+							known[cl.Key] = &kstate{data: cl.Data, flags: cl.Flags, ttl: cl.TTL}
+						} else {
+							delete(known, cl.Key)
+						}
+					case "touch":
+						if st := known[cl.Key]; st != nil && s == "HDone" {
+							st.ttl = cl.TTL
+						} else {
+							delete(known, cl.Key)
+						}
+					case "gat":
+						delete(known, cl.Key) // its outcome is not reported back here
+					case "get", "gete":
+					default:
+						delete(known, cl.Key)
 					}
 				case <-time.After(20 * time.Second):
 					mu.Lock()
